@@ -17,6 +17,8 @@ from __future__ import annotations
 
 import ast
 import copy
+import os
+from typing import Optional
 
 
 def _plain(node: ast.AST) -> bool:
@@ -71,6 +73,30 @@ class _Canon(ast.NodeTransformer):
                 node.left, node.comparators = right, [left]
         if self.structure and isinstance(op, (ast.In, ast.NotIn)) and isinstance(right, (ast.List, ast.Set)) and right.elts and all(is_enum_const(e) for e in right.elts):
             node.comparators = [ast.copy_location(ast.Tuple(elts=right.elts, ctx=ast.Load()), right)]
+        return node
+
+    def visit_Call(self, node: ast.Call) -> ast.AST:
+        """map(lambda x: E, xs) -> (E for x in xs); filter(lambda x: C, xs) -> (x for x in xs if C);
+        list(<generator>) -> [..], set(<generator>) -> {..}"""
+        self.generic_visit(node)
+        if not self.structure or node.keywords:
+            return node
+        fname = node.func.id if isinstance(node.func, ast.Name) else None
+        if fname in ("map", "filter") and len(node.args) == 2 and isinstance(node.args[0], ast.Lambda):
+            lam = node.args[0]
+            a = lam.args
+            if len(a.args) == 1 and not (a.posonlyargs or a.kwonlyargs or a.vararg or a.kwarg or a.defaults):
+                var = a.args[0].arg
+                target = ast.Name(var, ast.Store())
+                if fname == "map":
+                    gen = ast.GeneratorExp(elt=lam.body, generators=[ast.comprehension(target=target, iter=node.args[1], ifs=[], is_async=0)])
+                else:
+                    gen = ast.GeneratorExp(elt=ast.Name(var, ast.Load()), generators=[ast.comprehension(target=target, iter=node.args[1], ifs=[lam.body], is_async=0)])
+                return ast.copy_location(gen, node)
+        if fname in ("list", "set") and len(node.args) == 1 and isinstance(node.args[0], ast.GeneratorExp):
+            gen = node.args[0]
+            new = (ast.ListComp if fname == "list" else ast.SetComp)(elt=gen.elt, generators=gen.generators)
+            return ast.copy_location(new, node)
         return node
 
     def visit_BoolOp(self, node: ast.BoolOp) -> ast.AST:
@@ -148,6 +174,191 @@ def _inline_temps(func: ast.AST) -> int:
     return done
 
 
+# ------------------------------------------------------------------------------------------------ comprehensions
+def _loops_for(comp: ast.AST, leaf: list[ast.stmt], rename: dict[str, str]) -> list[ast.stmt]:
+    """nested for/if statements that run `leaf` once per element the comprehension produces"""
+
+    class Ren(ast.NodeTransformer):
+        def visit_Name(self, node: ast.Name) -> ast.AST:
+            if node.id in rename:
+                return ast.copy_location(ast.Name(rename[node.id], node.ctx), node)
+            return node
+
+    body = leaf
+    for gen in reversed(comp.generators):  # type: ignore[attr-defined]
+        for cond in reversed(gen.ifs):
+            body = [ast.copy_location(ast.If(test=Ren().visit(copy.deepcopy(cond)), body=body, orelse=[]), comp)]
+        loop = ast.For(target=Ren().visit(copy.deepcopy(gen.target)), iter=Ren().visit(copy.deepcopy(gen.iter)), body=body, orelse=[], type_comment=None)
+        body = [ast.copy_location(loop, comp)]
+    for stmt in body:
+        ast.fix_missing_locations(stmt)
+    return body, Ren  # type: ignore[return-value]
+
+
+def _expand_comprehensions(func: ast.AST) -> int:
+    """statement-level comprehensions become the loops they abbreviate:
+         T = [E for x in xs if c]        ->  T = [];  for x in xs: if c: T.append(E)
+         T = {E for ..} / {K: V for ..}  ->  T = set() / {};  ... T.add(E) / T[K] = V
+         R.extend([E for ..]) / R += [..] / R.update({E for ..})  ->  for ..: R.append(E) / R.add(E)
+         return [E for ..]               ->  _ret = []; for ..: _ret.append(E); return _ret
+    so that rules see one form whichever way the code is written (filters become `if` statements the flow engine reads)"""
+    # names that are bound outside of comprehensions (parameters, assignment / loop / with / except targets)
+    bound_outside: set[str] = set()
+
+    def scan(node: ast.AST, in_comp: bool) -> None:
+        for child in ast.iter_child_nodes(node):
+            if isinstance(child, (ast.ListComp, ast.SetComp, ast.DictComp, ast.GeneratorExp)):
+                scan(child, True)
+                continue
+            if isinstance(child, ast.Lambda):
+                continue
+            if not in_comp:
+                if isinstance(child, ast.Name) and isinstance(child.ctx, (ast.Store, ast.Del)):
+                    bound_outside.add(child.id)
+                elif isinstance(child, ast.arg):
+                    bound_outside.add(child.arg)
+                elif isinstance(child, ast.ExceptHandler) and child.name:
+                    bound_outside.add(child.name)
+            scan(child, in_comp)
+
+    scan(func, False)
+    done = 0
+    counter = [0]
+
+    def fresh_names(comp: ast.AST) -> dict[str, str]:
+        rename: dict[str, str] = {}
+        for gen in comp.generators:  # type: ignore[attr-defined]
+            for n in ast.walk(gen.target):
+                if isinstance(n, ast.Name) and n.id in bound_outside:
+                    counter[0] += 1
+                    rename[n.id] = f"{n.id}__c{counter[0]}"  # the name is also used outside the comprehension: keep the scopes apart
+        return rename
+
+    def mentions(comp: ast.AST, name: str) -> bool:
+        return any(isinstance(n, ast.Name) and n.id == name for n in ast.walk(comp))
+
+    def expand(stmt: ast.stmt) -> Optional[list[ast.stmt]]:
+        # a. T = <comprehension>
+        if isinstance(stmt, (ast.Assign, ast.AnnAssign)):
+            target = stmt.targets[0] if isinstance(stmt, ast.Assign) and len(stmt.targets) == 1 else (stmt.target if isinstance(stmt, ast.AnnAssign) else None)
+            val = stmt.value
+            if isinstance(target, ast.Name) and isinstance(val, (ast.ListComp, ast.SetComp, ast.DictComp)) and not mentions(val, target.id):
+                rename = fresh_names(val)
+                recv = ast.Name(target.id, ast.Load())
+                if isinstance(val, ast.ListComp):
+                    init: ast.expr = ast.List(elts=[], ctx=ast.Load())
+                    leaf: ast.stmt = ast.Expr(ast.Call(func=ast.Attribute(value=recv, attr="append", ctx=ast.Load()), args=[val.elt], keywords=[]))
+                elif isinstance(val, ast.SetComp):
+                    init = ast.Call(func=ast.Name("set", ast.Load()), args=[], keywords=[])
+                    leaf = ast.Expr(ast.Call(func=ast.Attribute(value=recv, attr="add", ctx=ast.Load()), args=[val.elt], keywords=[]))
+                else:
+                    init = ast.Dict(keys=[], values=[])
+                    leaf = ast.Assign(targets=[ast.Subscript(value=recv, slice=val.key, ctx=ast.Store())], value=val.value, type_comment=None)
+                ast.copy_location(leaf, stmt)
+                loops, ren = _loops_for(val, [leaf], rename)  # type: ignore[misc]
+                leaf_r = ren().visit(leaf)
+                loops2, _ = _loops_for(val, [leaf_r], rename)  # type: ignore[misc]
+                stmt.value = ast.copy_location(init, val)
+                return [stmt] + loops2
+        # b. R.extend(<comp>) / R.update(<comp>) / R += [comp]
+        recv_e = elt = comp = None
+        method = ""
+        if isinstance(stmt, ast.Expr) and isinstance(stmt.value, ast.Call) and isinstance(stmt.value.func, ast.Attribute) and stmt.value.func.attr in ("extend", "update") and len(stmt.value.args) == 1 and not stmt.value.keywords:
+            arg = stmt.value.args[0]
+            if isinstance(arg, (ast.ListComp, ast.SetComp, ast.GeneratorExp)):
+                recv_e, comp = stmt.value.func.value, arg
+                method = "append" if stmt.value.func.attr == "extend" else "add"
+        elif isinstance(stmt, ast.AugAssign) and isinstance(stmt.op, ast.Add) and isinstance(stmt.value, ast.ListComp):
+            recv_e, comp, method = stmt.target, stmt.value, "append"
+        if comp is not None and recv_e is not None and _plain(recv_e) and not (method == "add" and isinstance(comp.elt, ast.Tuple) and len(comp.elt.elts) == 2):
+            rename = fresh_names(comp)
+            recv_l = copy.deepcopy(recv_e)
+            for n in ast.walk(recv_l):
+                if isinstance(n, (ast.Name, ast.Attribute, ast.Subscript)):
+                    n.ctx = ast.Load()
+            leaf = ast.copy_location(ast.Expr(ast.Call(func=ast.Attribute(value=recv_l, attr=method, ctx=ast.Load()), args=[comp.elt], keywords=[])), stmt)
+            _, ren = _loops_for(comp, [leaf], rename)  # type: ignore[misc]
+            loops2, _ = _loops_for(comp, [ren().visit(leaf)], rename)  # type: ignore[misc]
+            return loops2
+        # c. return <comprehension>
+        if isinstance(stmt, ast.Return) and isinstance(stmt.value, (ast.ListComp, ast.SetComp, ast.DictComp)) and not mentions(stmt.value, "_ret"):
+            tmp = ast.copy_location(ast.Assign(targets=[ast.Name("_ret", ast.Store())], value=stmt.value, type_comment=None), stmt)
+            out = expand(tmp)
+            if out is not None:
+                stmt.value = ast.copy_location(ast.Name("_ret", ast.Load()), stmt.value)
+                return out + [stmt]
+        return None
+
+    def walk_block(block: list[ast.stmt]) -> None:
+        nonlocal done
+        i = 0
+        while i < len(block):
+            stmt = block[i]
+            if isinstance(stmt, (ast.FunctionDef, ast.AsyncFunctionDef, ast.ClassDef)):
+                i += 1
+                continue
+            new = expand(stmt)
+            if new is not None:
+                for s in new:
+                    ast.fix_missing_locations(s)
+                block[i : i + 1] = new
+                done += 1
+                i += len(new)
+                continue
+            for fld in ("body", "orelse", "finalbody"):
+                sub_ = getattr(stmt, fld, None)
+                if isinstance(sub_, list) and sub_ and isinstance(sub_[0], ast.stmt):
+                    walk_block(sub_)
+            for h in getattr(stmt, "handlers", []) or []:
+                walk_block(h.body)
+            i += 1
+
+    walk_block(func.body)  # type: ignore[attr-defined]
+    return done
+
+
+def fold_accumulator(name: str, init: ast.expr, loop: ast.stmt) -> Optional[ast.expr]:
+    """inverse of the expansion: `name = [] / set() / {}` followed by a loop nest whose only effect is
+    `name.append(E)` / `name.add(E)` / `name[K] = V`  ->  the comprehension that says the same"""
+    if isinstance(init, ast.List) and not init.elts:
+        kind = "list"
+    elif isinstance(init, ast.Call) and isinstance(init.func, ast.Name) and init.func.id == "set" and not init.args and not init.keywords:
+        kind = "set"
+    elif isinstance(init, ast.Dict) and not init.keys:
+        kind = "dict"
+    else:
+        return None
+    gens: list[ast.comprehension] = []
+    cur: ast.stmt = loop
+    while True:
+        if isinstance(cur, ast.For) and not cur.orelse and len(cur.body) == 1:
+            gens.append(ast.comprehension(target=cur.target, iter=cur.iter, ifs=[], is_async=0))
+            cur = cur.body[0]
+        elif isinstance(cur, ast.If) and not cur.orelse and len(cur.body) == 1 and gens:
+            gens[-1].ifs.append(cur.test)
+            cur = cur.body[0]
+        else:
+            break
+    if not gens:
+        return None
+    # `name.extend(E)` / `name.update(E)` as the innermost statement: one more generator over E
+    if kind in ("list", "set") and isinstance(cur, ast.Expr) and isinstance(cur.value, ast.Call) and isinstance(cur.value.func, ast.Attribute) and isinstance(cur.value.func.value, ast.Name) \
+            and cur.value.func.value.id == name and cur.value.func.attr == ("extend" if kind == "list" else "update") and len(cur.value.args) == 1 and not cur.value.keywords:
+        gens.append(ast.comprehension(target=ast.Name("_e", ast.Store()), iter=cur.value.args[0], ifs=[], is_async=0))
+        if any(isinstance(n, ast.Name) and n.id == name for g in gens for n in ast.walk(g)):
+            return None
+        return (ast.ListComp if kind == "list" else ast.SetComp)(elt=ast.Name("_e", ast.Load()), generators=gens)
+    if kind in ("list", "set") and isinstance(cur, ast.Expr) and isinstance(cur.value, ast.Call) and isinstance(cur.value.func, ast.Attribute) and isinstance(cur.value.func.value, ast.Name) \
+            and cur.value.func.value.id == name and cur.value.func.attr == ("append" if kind == "list" else "add") and len(cur.value.args) == 1 and not cur.value.keywords:
+        elt = cur.value.args[0]
+        if any(isinstance(n, ast.Name) and n.id == name for g in gens for n in ast.walk(g)) or any(isinstance(n, ast.Name) and n.id == name for n in ast.walk(elt)):
+            return None
+        return (ast.ListComp if kind == "list" else ast.SetComp)(elt=elt, generators=gens)
+    if kind == "dict" and isinstance(cur, ast.Assign) and len(cur.targets) == 1 and isinstance(cur.targets[0], ast.Subscript) and isinstance(cur.targets[0].value, ast.Name) and cur.targets[0].value.id == name:
+        return ast.DictComp(key=cur.targets[0].slice, value=cur.value, generators=gens)
+    return None
+
+
 _NEGATIVE = (ast.NotEq, ast.NotIn, ast.IsNot)
 
 
@@ -207,6 +418,10 @@ def _shape_ifs(tree: ast.AST) -> tuple[int, int]:
 def normal_form(tree: ast.Module) -> ast.Module:
     """the name-independent part: run before local names are alpha-normalised"""
     tree = _Canon(sort_operands=False).visit(tree)
+    if not os.environ.get("NGOSA_NO_LOOPS"):
+        for node in ast.walk(tree):
+            if isinstance(node, (ast.FunctionDef, ast.AsyncFunctionDef)):
+                _expand_comprehensions(node)
     done = 0
     for node in ast.walk(tree):
         if isinstance(node, (ast.FunctionDef, ast.AsyncFunctionDef)):
